@@ -14,6 +14,7 @@
 #include <cstdio>
 #include <cstdlib>
 #include <algorithm>
+#include <map>
 #include <vector>
 
 #include "common.h"
@@ -230,6 +231,10 @@ PoolResult RunPool(const PoolOptions &opt, const PoolCallbacks &cb) {
             wk.done = true;
           } else {
             ++res.deaths;
+            if (opt.max_deaths && res.deaths >= opt.max_deaths && !g_shm->stop) {
+              g_shm->stop = 1;
+              res.budget_hit = true;
+            }
             PoolDeath d;
             d.idx = g_shm->w[w].cur_idx;
             d.in_run = g_shm->w[w].in_run != 0;
@@ -284,19 +289,100 @@ std::string ClassifyDeath(const PoolDeath &d, std::string *sig,
   if (log.size() > 200000) log = log.substr(log.size() - 200000);
   *excerpt = log.substr(0, 6000);
   auto first_draco_frame = [&](size_t from) -> std::string {
-    // Frames look like "    #3 0x... in draco::Foo::Bar(...) /path:line:col".
+    // Frames look like "    #3 0x4f2a in draco::Foo::Bar(...) /path:line:col"
+    // when the sanitizer symbolised them, else "    #3 0x4f2a  (/bin+0x4f2a)".
+    // Workers run with symbolize=0 (a symbolizer process per dying worker is
+    // what makes crash storms slow); the parent symbolises once per PC.
+    std::vector<uint64_t> pcs;
     size_t p = from;
-    while ((p = log.find(" in ", p)) != std::string::npos) {
-      size_t e = log.find('\n', p);
-      std::string fr = log.substr(p + 4, e == std::string::npos ? std::string::npos
-                                                                 : e - p - 4);
-      if (fr.find("draco::") != std::string::npos) {
-        size_t par = fr.find('(');
-        size_t sp = fr.find(" /");
-        size_t cut = std::min(par, sp);
-        return fr.substr(0, cut);
+    int frames = 0;
+    while ((p = log.find("\n    #", p)) != std::string::npos && frames < 24) {
+      ++frames;
+      size_t e = log.find('\n', p + 1);
+      std::string line = log.substr(p + 1, e == std::string::npos ? std::string::npos
+                                                                   : e - p - 1);
+      p += 1;
+      size_t in = line.find(" in ");
+      if (in != std::string::npos) {
+        std::string fr = line.substr(in + 4);
+        if (fr.find("draco::") != std::string::npos) {
+          size_t par = fr.find('(');
+          size_t sp = fr.find(" /");
+          return fr.substr(0, std::min(par, sp));
+        }
+        continue;
       }
-      p += 4;
+      size_t x = line.find("0x");
+      if (x == std::string::npos) continue;
+      uint64_t pc = strtoull(line.c_str() + x, nullptr, 16);
+      const bool top = line.find("#0 ") != std::string::npos;
+      pcs.push_back(top || pc == 0 ? pc : pc - 1);
+      // A second trace ("freed by", "allocated by") starts again at #0.
+      if (frames > 1 && top) {
+        pcs.pop_back();
+        break;
+      }
+    }
+    static std::map<uint64_t, std::string> cache;
+    for (uint64_t pc : pcs) {
+      auto it = cache.find(pc);
+      if (it == cache.end()) {
+        // One symbolizer invocation for all unknown PCs of this report.
+        char exe[4096];
+        ssize_t en = readlink("/proc/self/exe", exe, sizeof(exe) - 1);
+        exe[en > 0 ? en : 0] = 0;
+        std::string cmd = std::string("/usr/bin/llvm-symbolizer-14 --obj=") + exe +
+                          " -f -C -s -i";
+        std::vector<uint64_t> need;
+        for (uint64_t q : pcs)
+          if (!cache.count(q)) {
+            char b[32];
+            snprintf(b, sizeof(b), " 0x%llx", static_cast<unsigned long long>(q));
+            cmd += b;
+            need.push_back(q);
+          }
+        cmd += " 2>/dev/null";
+        std::string out;
+        if (FILE *f = popen(cmd.c_str(), "r")) {
+          char buf[4096];
+          size_t n;
+          while ((n = fread(buf, 1, sizeof(buf), f)) > 0) out.append(buf, n);
+          pclose(f);
+        }
+        size_t pos = 0;
+        for (uint64_t q : need) {
+          size_t e = out.find("\n\n", pos);
+          std::string block = out.substr(pos, e == std::string::npos ? std::string::npos
+                                                                      : e - pos);
+          pos = e == std::string::npos ? out.size() : e + 2;
+          // Lines alternate function / location (inlined frames first).
+          std::string pick;
+          size_t lp = 0;
+          int ln = 0;
+          while (lp < block.size()) {
+            size_t le = block.find('\n', lp);
+            std::string l = block.substr(lp, le == std::string::npos ? std::string::npos
+                                                                      : le - lp);
+            lp = le == std::string::npos ? block.size() : le + 1;
+            if (ln++ % 2 == 0 && pick.empty() && l.find("draco::") != std::string::npos)
+              pick = l;
+          }
+          cache[q] = pick;
+        }
+        it = cache.find(pc);
+        if (it == cache.end()) continue;
+      }
+      if (!it->second.empty()) {
+        const std::string &fr = it->second;
+        // Drop the parameter list (keeps signatures short and stable).
+        int depth = 0;
+        for (size_t i = 0; i < fr.size(); ++i) {
+          if (fr[i] == '<') ++depth;
+          if (fr[i] == '>') --depth;
+          if (fr[i] == '(' && depth == 0) return fr.substr(0, i);
+        }
+        return fr;
+      }
     }
     return "";
   };
@@ -313,7 +399,13 @@ std::string ClassifyDeath(const PoolDeath &d, std::string *sig,
     std::string msg = log.substr(s, e - s);
     // Strip concrete numbers so that the signature is stable.
     std::string norm;
-    for (char c : msg) norm += isdigit(static_cast<unsigned char>(c)) ? '#' : c;
+    for (char c : msg) {
+      if (isdigit(static_cast<unsigned char>(c))) {
+        if (norm.empty() || norm.back() != '#') norm += '#';
+      } else {
+        norm += c;
+      }
+    }
     // Source position precedes "runtime error".
     size_t ls = log.rfind('\n', p);
     std::string pos = log.substr(ls == std::string::npos ? 0 : ls + 1,
